@@ -352,12 +352,51 @@ type durScan struct {
 // (checked by the crash forks of this segment).
 func (h *dbHarness) execDurScan() {
 	idx := h.disk.LogLen()
-	it, err := h.db.NewIter(&pebble.IterOptions{OnlyReadGuaranteedDurable: true, KeyTypes: pebble.IterKeyTypePointsOnly})
+	opts := &pebble.IterOptions{OnlyReadGuaranteedDurable: true, KeyTypes: pebble.IterKeyTypePointsAndRanges}
+	var it *pebble.Iterator
+	var err error
+	if h.r.IntN(3) == 0 {
+		// an ordinary iterator switched to the durable-only view: SetOptions
+		// must rebuild the stack without the memtables
+		it, err = h.db.NewIter(&pebble.IterOptions{KeyTypes: pebble.IterKeyTypePointsAndRanges})
+		if err == nil {
+			it.First()
+			it.SetOptions(opts)
+			h.count("probe.durscan_via_setoptions", 1)
+		}
+	} else {
+		it, err = h.db.NewIter(opts)
+	}
 	if err != nil {
 		h.opErr("newiter-durable", err)
 		return
 	}
-	pts, err := scanPoints(it)
+	var pts []kvmodel.KV
+	var spans []kvmodel.Span
+	for ok := it.First(); ok; ok = it.Next() {
+		hasPoint, hasRange := it.HasPointAndRange()
+		if hasPoint {
+			v, verr := it.ValueAndErr()
+			if verr != nil {
+				err = verr
+				break
+			}
+			pts = append(pts, kvmodel.KV{K: string(it.Key()), V: string(v)})
+		}
+		if hasRange {
+			st, en := it.RangeBounds()
+			if n := len(spans); n == 0 || spans[n-1].Start != string(st) {
+				sp := kvmodel.Span{Start: string(st), End: string(en)}
+				for _, rk := range it.RangeKeys() {
+					sp.Keys = append(sp.Keys, kvmodel.RKey{Suf: string(rk.Suffix), Val: string(rk.Value)})
+				}
+				spans = append(spans, sp)
+			}
+		}
+	}
+	if err == nil {
+		err = it.Error()
+	}
 	if cerr := it.Close(); err == nil {
 		err = cerr
 	}
@@ -368,7 +407,7 @@ func (h *dbHarness) execDurScan() {
 	n := h.model.Len()
 	// smallest matching prefix: the weakest (sound) requirement for the crash
 	for j := 0; j <= n; j++ {
-		if kvmodel.DiffPoints(h.model.StateAt(j).Points(), pts) == "" {
+		if diffState(h.model.StateAt(j), pts, spans) == "" {
 			h.durScans = append(h.durScans, durScan{idx: idx, k: j})
 			h.count("check.durscan", 1)
 			if j < n {
@@ -399,7 +438,7 @@ func (h *dbHarness) execDurScan() {
 					st.ApplyGroup(g)
 				}
 			}
-			if kvmodel.DiffPoints(st.Points(), pts) == "" {
+			if diffState(st, pts, spans) == "" {
 				h.addKnown("C13:durable-view-has-ingest-past-unflushed-batches")
 				h.durScans = append(h.durScans, durScan{idx: idx, k: j, commuted: true})
 				h.count("check.durscan", 1)
@@ -408,7 +447,7 @@ func (h *dbHarness) execDurScan() {
 			}
 		}
 	}
-	Violation("durable-view", "an OnlyReadGuaranteedDurable scan after %d groups equals the model after no prefix of the history: vs latest: %s", n, kvmodel.DiffPoints(h.model.StateAt(n).Points(), pts))
+	Violation("durable-view", "an OnlyReadGuaranteedDurable scan (points and range keys) after %d groups equals the model after no prefix of the history: vs latest: %s", n, diffState(h.model.StateAt(n), pts, spans))
 }
 
 // fmvFloor records that a format ratchet to version v had returned when the
